@@ -274,6 +274,8 @@ func checkC03(w *World, r *Report) {
 	}
 	ruleObject(m, r, e, reg)
 	tryShapeRule(m, r)
+	recoverDirectRule(w, r, "C03.recover-direct")
+	constFormatRule(w, r, "C03.const-format")
 	r.rule("C03.panic-conversion", "every adapter of the reflective binder starts with a deferred handler that calls recover() itself and converts the panic into an error that wraps the original (so a panicking builtin is delivered to catch like a returned error)")
 	nad := 0
 	extSig := w.ByPath[modPath+"/types"].Types.Scope().Lookup("ExternalCall").Type().Underlying().(*types.Signature)
